@@ -127,6 +127,14 @@ func registerSched() {
 			"identical pods of one pod set are interchangeable in the canonical state"}})
 	var c07in *oracle.C07Input
 	run.Register(&SchedCheck{Id: "C07", Profile: "fairness", Quick: 1200, Thorough: 12000,
+		Gen: func(seed int64, idx int, tier string) *spec.Case {
+			if idx%3 == 1 { // a third of the cases: department-contention clusters (uneven trees, reclaim in every case)
+				c := gen.Contention(seed, idx, tier)
+				c.World.Closed = idx%2 == 0 // half of them as open systems (evicted pods are gone)
+				return c
+			}
+			return nil
+		},
 		Hooks: func(c *spec.Case, sink *[]run.Violation, st *oracle.Stats) sched.Hooks {
 			return sched.Hooks{AfterOpen: func(ssn *framework.Session, rc *sched.RecCache) {
 				c07in = nil
